@@ -27,6 +27,9 @@ Verdict(ev) ==
          ELSE IF ~Optimal(ev.sir, ev.perm, ev.n, ev.n) THEN "does-not-maximise-mean-sir"
          ELSE IF ~ev.decompok THEN "components-do-not-sum-to-estimate"
          ELSE IF ~ev.scaleok THEN "not-scale-invariant"
+         ELSE IF ~ev.imgdecompok THEN "image-components-do-not-sum-to-estimate"
+         ELSE IF ~ev.imgscaleok THEN "images-not-scale-invariant"
+         ELSE IF ~ev.evalok THEN "evaluate-differs-from-the-functions-it-bundles"
          ELSE "ok"
     [] ev.kind = "equiv" ->
          IF ~IsPerm(ev.perm2, ev.n) THEN "not-a-permutation"
